@@ -796,8 +796,8 @@ def prepare_signature(g, thr, cls):
                     continue
             if key_contains(("x",) + tuple(y for y in x[1:] if isinstance(y, tuple)), lambda y: inl(y) == Lkey if isinstance(y, tuple) and y[0] in ("var", "mcall") else False) and x[0] in ("true", "false"):
                 unknownL = x
-        if unknownL is not None and effects:
-            raise AnalysisBroken("%s: part creation depends on a condition on the image block that is not understood (%s)" % (g.qn, str(fact_str(unknownL))[:80]))
+        # (conditions that relate the image block to something that is not a constant -- `Left == Right`, ... -- say nothing about
+        #  its existence: they are extra filters and are judged as such below)
         only_valid = bool(D) and all(v >= 0 for v in D)
         only_missing = bool(D) and all(v < 0 for v in D)
         if only_valid and D != {0, 1, 5} and effects:
